@@ -882,6 +882,145 @@ Proof.
     rewrite app_assoc, Hp3, <- app_assoc. exact Hp2.
 Qed.
 
+(* ---------------------------------------------------------------- clone_from *)
+
+Lemma nd_and_carry_here : forall l, nd (and_carry_here c l).
+Proof.
+  induction l as [|e l IH]; cbn [and_carry_here]; [apply nd_ret|].
+  eapply ndr_bind; [apply ndr_getm|]. intros t Ht.
+  apply nd_bind; [apply nd_tick_hash|intros _]. apply nd_bind; [apply nd_cb|intros _].
+  apply nd_bind; [apply ndr_on_unwind, nd_cb|intros _].
+  eapply ndr_bind; [apply ndr_hb_insert, Ht|]. intros t' Ht'.
+  apply nd_bind; [apply nd_setm, Ht'|intros _; exact IH].
+Qed.
+
+(* let _ = self.leftovers.take(): what is still in the old table is dropped, each once *)
+Lemma free_old_ledger s :
+  wpp free_old (fun _ s1 => main (s_rt s1) = main (s_rt s) /\ lo (s_rt s1) = None /\
+     dks s1 = rev (map ekid (match lo (s_rt s) with Some o => orem o | None => [] end)) ++ dks s /\
+     dvs s1 = rev (map ev (match lo (s_rt s) with Some o => orem o | None => [] end)) ++ dvs s) TT s.
+Proof.
+  unfold free_old. apply wpp_bind. unfold getlo. apply wpp_gets'. destruct (lo (s_rt s)) as [o|] eqn:E.
+  - apply wpp_bind. unfold setlo, modify, wpp at 1. apply wpp_bind.
+    eapply wpp_mono; [apply drop_elems_ledger|]. cbn beta. intros _ s1 (Hr & Hk & Hv).
+    unfold tick_free, tick, modify, wpp, dks, dvs in *. cbn [set_log s_rt s_log log_free l_dk l_dv]. rewrite Hr. cbn [set_rt s_rt main lo s_log] in *. auto.
+  - apply wpp_ret. rewrite E. cbn. auto.
+Qed.
+
+Lemma rp_bind {A B} (P : A -> Prop) (Q : B -> Prop) (m : M' A) (g : A -> M' B) :
+  rp P m -> (forall x, rp Q (g x)) -> rp Q (bind m g).
+Proof.
+  intros Hm Hg s. specialize (Hm s). unfold bind. destruct (m s) as [a s1|p s1|f]; [|exact I|exact I].
+  destruct Hm as (Hr & Hk & Hv & _). specialize (Hg a s1). destruct (g a s1) as [b s2|p s2|f]; [|exact I|exact I].
+  destruct Hg as (Hr2 & Hk2 & Hv2 & HQ). repeat split; congruence || exact HQ.
+Qed.
+Lemma rp_ret {A} (a : A) : rp (fun _ => True) (ret a).
+Proof. intros s. cbn. auto. Qed.
+Lemma rp_on_unwind {A} (P : A -> Prop) (m : M' A) h : rp P m -> rp P (on_unwind m h).
+Proof.
+  intros Hm s. specialize (Hm s). unfold on_unwind. destruct (m s) as [a s1|p s1|f]; [exact Hm| |exact I].
+  destruct (h s1); exact I.
+Qed.
+Lemma rp_iterM {A} (g : A -> M' unit) l : (forall a, rp (fun _ => True) (g a)) -> rp (fun _ => True) (iterM g l).
+Proof.
+  intros Hg. induction l as [|a l IH]; cbn [iterM]; [apply rp_ret|].
+  eapply rp_bind; [apply Hg|intros _; exact IH].
+Qed.
+Lemma rp_tick g : (forall l, l_dk (g l) = l_dk l /\ l_dv (g l) = l_dv l) -> rp (fun _ => True) (tick g).
+Proof. intros Hg s0. unfold tick, modify, dks, dvs. cbn. destruct (Hg (s_log s0)). auto. Qed.
+Lemma rp_tick_hash : rp (fun _ => True) tick_hash.
+Proof. unfold tick_hash. eapply rp_bind; [apply rp_tick; intros l; cbn; auto|intros _; apply rp_cb]. Qed.
+Lemma rp_hb_free t0 : rp (fun _ => True) (hb_free t0).
+Proof. unfold hb_free. destruct (negb _); cbn [when]; [apply rp_tick; intros l; cbn; auto|apply rp_ret]. Qed.
+Lemma rp_take_order_or m : rp (fun _ => True) (take_order_or m).
+Proof. intros s. unfold take_order_or, bind, get. cbn. auto. Qed.
+Lemma rp_clone_elems l : forall acc, rp (fun _ => True) (clone_elems l acc).
+Proof.
+  induction l as [|e l IH]; intros acc; cbn [clone_elems]; [apply rp_ret|].
+  eapply rp_bind; [apply rp_on_unwind, rp_cb|intros _]. eapply rp_bind; [apply rp_on_unwind, rp_cb|intros _; apply IH].
+Qed.
+
+(* hashbrown's clone_from_with_hasher: the destination's own elements are dropped, each once;
+   the clones it makes are the new contents *)
+Lemma hb_clone_from_ledger t sm s :
+  hbc t -> hbc sm ->
+  wpp (hb_clone_from_with_hasher t sm)
+      (fun t' s' => hbc t' /\ lo (s_rt s') = lo (s_rt s) /\
+         dks s' = rev (map ekid (map_to_list (hel t)).*2) ++ dks s /\
+         dvs s' = rev (map ev (map_to_list (hel t)).*2) ++ dvs s) TT s.
+Proof.
+  intros Ht Hsm. unfold hb_clone_from_with_hasher.
+  destruct (_ && _).
+  - (* clear and re-insert *)
+    assert (Hloop : forall els, rp (fun _ => True)
+              (iterM (fun e => cb ;;; on_unwind cb (drop_key (ekid e)) ;;; on_unwind tick_hash (drop_elem e)) els)).
+    { intros els. apply rp_iterM. intros e. eapply rp_bind; [apply rp_cb|intros _].
+      eapply rp_bind; [apply rp_on_unwind, rp_cb|intros _]. apply rp_on_unwind, rp_tick_hash. }
+    assert (Hrest : forall t1 s1, hbc t1 -> hn t1 = 0 \/ True ->
+              wpp (setm t1 ;;; els <- take_order_or (hel sm) ;;
+                   iterM (fun e => cb ;;; on_unwind cb (drop_key (ekid e)) ;;; on_unwind tick_hash (drop_elem e)) els ;;;
+                   (if hgl t1 <? hlen sm then unwind (PDebugAssert 3647) else ret (HB (hB t1) (hgl t1 - hlen sm) (hn sm) (hel sm))))
+                  (fun t' s' => hbc t' /\ lo (s_rt s') = lo (s_rt s1) /\ dks s' = dks s1 /\ dvs s' = dvs s1) TT s1).
+    { intros t1 s1 Ht1 _. apply wpp_bind. unfold setm, modify, wpp at 1.
+      apply wpp_bind. eapply wpp_mono; [apply rp_wpp, rp_take_order_or|]. cbn beta. intros els s2 (Hr2 & Hk2 & Hv2 & _).
+      apply wpp_bind. eapply wpp_mono; [apply rp_wpp, Hloop|]. cbn beta. intros _ s3 (Hr3 & Hk3 & Hv3 & _).
+      destruct (_ <? _); [exact I|]. apply wpp_ret. split; [exact Hsm|].
+      rewrite Hr3, Hr2. cbn [set_rt s_rt lo]. split; [reflexivity|]. unfold dks, dvs in *. cbn [set_rt s_log] in *. split; congruence. }
+    apply wpp_bind. unfold hb_clear. destruct (hlen t =? 0) eqn:E0.
+    + apply wpp_ret.
+      assert (Hemp : hel t = ∅) by (apply N.eqb_eq in E0; unfold hlen, hbc in *; apply map_size_empty_inv; lia).
+      eapply wpp_mono; [apply (Hrest t s Ht); auto|]. cbn beta. intros t' s' (H1 & H2 & H3 & H4).
+      rewrite Hemp, map_to_list_empty. cbn. auto.
+    + apply wpp_bind. eapply wpp_mono; [apply drop_elems_ledger|]. cbn beta. intros _ s1 (Hr1 & Hk1 & Hv1). apply wpp_ret.
+      eapply wpp_mono; [apply (Hrest (hb_empty (hB t)) s1 (hbc_empty _)); auto|]. cbn beta. intros t' s' (H1 & H2 & H3 & H4).
+      split; [exact H1|]. split; [congruence|]. split; congruence.
+  - destruct (hB sm =? 1).
+    + apply wpp_bind. eapply wpp_mono; [apply drop_elems_ledger|]. cbn beta. intros _ s1 (Hr1 & Hk1 & Hv1).
+      apply wpp_bind. eapply wpp_mono; [apply rp_wpp, rp_hb_free|]. cbn beta. intros _ s2 (Hr2 & Hk2 & Hv2 & _).
+      apply wpp_ret. split; [apply hbc_new|]. split; [congruence|]. split; congruence.
+    + apply wpp_bind. eapply wpp_mono; [apply drop_elems_ledger|]. cbn beta. intros _ s1 (Hr1 & Hk1 & Hv1).
+      apply wpp_bind.
+      assert (Hw : rp (fun _ => True) (when (negb (hB t =? hB sm)) (tick_alloc ;;; hb_free t))).
+      { destruct (negb _); cbn [when]; [|apply rp_ret]. eapply rp_bind; [apply rp_tick; intros l; cbn; auto|intros _; apply rp_hb_free]. }
+      eapply wpp_mono; [apply rp_wpp, Hw|]. cbn beta. intros _ s2 (Hr2 & Hk2 & Hv2 & _).
+      apply wpp_bind. eapply wpp_mono; [apply rp_wpp, rp_take_order_or|]. cbn beta. intros els s3 (Hr3 & Hk3 & Hv3 & _).
+      apply wpp_bind. apply wpp_on_unwind. eapply wpp_conseq; [apply rp_wpp, rp_clone_elems| |].
+      2:{ intros p s4 _. unfold wpp, TT. destruct (setm (hb_empty (hB sm)) s4); exact I. }
+      cbn beta. intros _ s4 (Hr4 & Hk4 & Hv4 & _). apply wpp_ret.
+      split; [exact Hsm|]. split; [congruence|]. split; congruence.
+Qed.
+
+(* C06: clone_from.  Everything the destination held - in either of its tables - is dropped
+   exactly once (the ledger grows by a permutation of its previous elements); nothing else is *)
+Theorem rt_clone_from_ledger src s :
+  lite s -> hbc (main src) ->
+  wpp (rt_clone_from c src)
+      (fun _ s' => dks s' ≡ₚ map ekid (elems (s_rt s)) ++ dks s /\ dvs s' ≡ₚ map ev (elems (s_rt s)) ++ dvs s) TT s.
+Proof.
+  intros [Hm Hl] Hsrc. unfold rt_clone_from. apply wpp_bind.
+  eapply wpp_mono; [apply free_old_ledger|]. cbn beta. intros _ s1 (Hm1 & Hlo1 & Hk1 & Hv1).
+  apply wpp_bind. unfold getm. apply wpp_gets'. rewrite Hm1. set (t := main (s_rt s)) in *.
+  set (t0 := if hlen t =? 0 then hb_clear_no_drop t else t).
+  assert (Ht0 : hbc t0 /\ (map_to_list (hel t0)).*2 = (map_to_list (hel t)).*2).
+  { unfold t0. destruct (hlen t =? 0) eqn:E0; [|auto]. split; [apply hbc_empty|].
+    apply N.eqb_eq in E0. assert (hel t = ∅) as -> by (unfold hlen, hbc in *; apply map_size_empty_inv; lia). reflexivity. }
+  destruct Ht0 as [Ht0 Hel0].
+  apply wpp_bind. unfold setm, modify, wpp at 1. apply wpp_bind.
+  eapply wpp_mono; [apply (hb_clone_from_ledger t0 (main src) _ Ht0 Hsrc)|]. cbn beta.
+  intros t' s2 (Ht' & Hlo2 & Hk2 & Hv2). cbn [set_rt s_rt lo] in Hlo2.
+  apply wpp_bind. unfold setm, modify, wpp at 1.
+  apply wpp_bind. unfold cursor_view. 
+  set (s3 := set_rt (RT t' (lo (s_rt s2))) s2).
+  assert (Hl3 : lite s3) by (unfold s3, lite; cbn [set_rt s_rt main lo]; rewrite Hlo2, Hlo1; split; [exact Ht'|exact I]).
+  assert (Hfin : forall l, wpp (and_carry_here c l)
+            (fun _ s' => dks s' ≡ₚ map ekid (elems (s_rt s)) ++ dks s /\ dvs s' ≡ₚ map ev (elems (s_rt s)) ++ dvs s) TT s3).
+  { intros l. eapply wpp_mono; [apply nd_and_carry_here, Hl3|]. cbn beta. intros _ s4 [(Hk4 & Hv4 & _) _].
+    unfold s3, dks, dvs in Hk4, Hv4. cbn [set_rt s_log] in Hk4, Hv4. unfold dks, dvs in *. cbn [set_rt s_log] in Hk2, Hv2.
+    rewrite Hk4, Hk2, Hv4, Hv2, Hk1, Hv1, Hel0. unfold elems. fold t. rewrite !map_app, !app_assoc.
+    split; apply Permutation_app_tail; apply Permutation_app; rewrite <- Permutation_rev; reflexivity. }
+  destruct (lo src) as [o|]; [|apply wpp_ret, Hfin]. destruct (_ <? _); [exact I|apply wpp_ret, Hfin].
+Qed.
+
 End Ledger.
 
 (* the invariant of the development provides what the ledger analysis needs *)
